@@ -108,6 +108,11 @@ def dec(j: Any):
         return make_struct(j)
     if "A" in j:
         return make_array_source(j)
+    if "CA" in j:  # ctypes array of (zeroed or filled) struct instances: {"CA": class ref, "n": length, "fill": byte|None}
+        arr = (resolve(j["CA"]) * int(j["n"]))()
+        if j.get("fill") is not None and j["n"]:
+            ctypes.memset(ctypes.addressof(arr), int(j["fill"]) & 0xFF, ctypes.sizeof(arr))
+        return arr
     if "C" in j:  # ctypes array: {"C": element code, "v": [encoded python values]}
         vals = [dec(x) for x in j["v"]]
         return (CT[j["C"]] * len(vals))(*vals)
@@ -260,6 +265,11 @@ def resolve(ref: dict) -> type:
             if c.__name__ == ref["extra"]:
                 return c
         raise HarnessError(f"no extra class {ref['extra']}")
+    if "like" in ref:
+        cls = lookalike_class(resolve(ref["like"]), ref["swap"])
+        if cls is None:
+            raise HarnessError(f"no look-alike for {ref!r}")
+        return cls
     if "spec" in ref and "rid" in ref:
         return build_class_for_id(ref["spec"], ref["rid"])
     if "spec" in ref:
@@ -497,12 +507,87 @@ def leaf_targets(cls: type, limit: int = 4000):
 
 
 # ------------------------------------------------------------------------------------------------
+# look-alike struct classes: same class __name__, same ordered field names, same offsets and sizeof - other field types
+# (what two definition files, or two versions of one, can make of "POINT")
+
+_SAME_SIZE = [["i8", "u8", "char", "byte"], ["i16", "u16"], ["i32", "u32", "f32"], ["i64", "u64", "f64"]]
+_LIKE: Dict[Tuple[type, str], Optional[type]] = {}
+
+
+def _other_code(code: str) -> str:
+    for grp in _SAME_SIZE:
+        if code in grp:
+            return grp[(grp.index(code) + 1) % len(grp)]
+    raise HarnessError(f"no same-size partner for {code}")
+
+
+def _twin_validator(fi: FI, swap: bool):
+    """A fresh validator for a field like fi: of the same type, or (swap) of another type of the same size and
+    alignment -> (validator, really different)."""
+    k = fi.kind
+    if k in ("int", "float", "char", "byte"):
+        code = fi.code if k in ("int", "float") else k
+        return VCLS[_other_code(code) if swap else code](), swap
+    if k == "str":
+        return (V.ByteArray(fi.n) if swap else V.String(fi.n)), swap
+    if k == "bytes":
+        return (V.String(fi.n) if swap else V.ByteArray(fi.n)), swap
+    if k in ("iarr", "farr"):
+        code = _other_code(fi.code) if swap else fi.code
+        return (V.IntArray if code in INT_CODES else V.FloatArray)(VCLS[code], fi.n), swap
+    inner = lookalike_class(fi.scls, "all") if swap else None
+    changed = inner is not None
+    inner = inner if changed else fi.scls
+    return (V.Struct(inner) if k == "struct" else V.StructArray(inner, fi.n)), changed
+
+
+def lookalike_class(scls: type, swap) -> Optional[type]:
+    """A different class that looks like scls; swap = "all" or a list of field indices whose types are exchanged.
+    None if nothing can be exchanged (no fields)."""
+    key = (scls, _canon(swap))
+    if key in _LIKE:
+        return _LIKE[key]
+    fis = fields_of(scls)
+    ns: Dict[str, Any] = {"type_name": getattr(scls, "type_name", scls.__name__), "type_hash": 1, "type_source": "verif-look-alike",
+                          "type_def": "look-alike"}
+    changed = False
+    for i, fi in enumerate(fis):
+        v, ch = _twin_validator(fi, swap == "all" or i in swap)
+        changed = changed or ch
+        ns[fi.name] = v
+    cls = None
+    if changed:
+        cls = MessageMeta(scls.__name__, (MessageBase,), ns)
+        if (cls is scls or issubclass(cls, scls) or cls.__name__ != scls.__name__ or ctypes.sizeof(cls) != ctypes.sizeof(scls)
+                or [f[0] for f in cls._fields_] != [f[0] for f in scls._fields_]
+                or [getattr(cls, f[0]).offset for f in cls._fields_] != [getattr(scls, f[0]).offset for f in scls._fields_]
+                or [f[1] for f in cls._fields_] == [f[1] for f in scls._fields_]):
+            raise HarnessError(f"look-alike of {scls.__name__} (swap {swap}) does not look alike")
+        _REF_OF[cls] = {"like": ref_of(scls), "swap": swap}
+    _LIKE[key] = cls
+    return cls
+
+
+def lookalike_refs(scls: type) -> List[dict]:
+    """References of the look-alikes of scls: every field exchanged, and single fields exchanged."""
+    nf = len(fields_of(scls))
+    out = []
+    for swap in ["all"] + [[i] for i in sorted(set(list(range(min(nf, 4))) + [nf - 1])) if i >= 0]:
+        if nf > 1 or swap == "all":
+            if lookalike_class(scls, swap) is not None:
+                out.append({"like": ref_of(scls), "swap": swap})
+    return out
+
+
+# ------------------------------------------------------------------------------------------------
 # struct instances / array sources named in traces
 
 
 def make_struct(j: dict) -> MessageBase:
     """{"S": ref, "vals": [[path, field, value], ...]} -> fresh instance (validated assignments, failures ignored)."""
     inst = resolve(j["S"])()
+    if j.get("fill") is not None:  # raw content, written without any validator
+        ctypes.memset(ctypes.addressof(inst), int(j["fill"]) & 0xFF, ctypes.sizeof(inst))
     for path, fname, v in j.get("vals", []):
         try:
             c, _ccls, _off = walk(inst, path)
@@ -642,6 +727,8 @@ def classify_struct(scls: type, v: Any):
         return "in", "", bytes(v)
     if isinstance(v, scls):
         return "dc", "subclass", None
+    if isinstance(v, MessageBase) and type(v).__name__ == scls.__name__ and ctypes.sizeof(v) == ctypes.sizeof(scls):
+        return "out", "look-alike-struct-type", None  # another class of the same name, field names and size
     return "out", "wrong-struct-type", None
 
 
@@ -862,7 +949,22 @@ def struct_wrong(scls: type):
     others = [r for r in others if resolve(r) is not scls]
     nf = len(fields_of(scls))
     plain = [(), (0,), tuple([0] * nf), [], {}, None, 0, 1.0, "", "a", b"", bytes(ctypes.sizeof(scls))]
-    return st.one_of(st.sampled_from(others).map(lambda r: {"S": r, "vals": []}), st.sampled_from(plain).map(enc))
+    alts = [st.sampled_from(others).map(lambda r: {"S": r, "vals": []}), st.sampled_from(plain).map(enc)]
+    likes = lookalike_refs(scls)
+    if likes:  # a DIFFERENT class with the same __name__, field names, offsets and size but other field types
+        like = st.tuples(st.sampled_from(likes), _FILL).map(lambda t: {"S": t[0], "vals": [], "fill": t[1]})
+        alts += [like, like]
+    return st.one_of(alts)
+
+
+_FILL = st.sampled_from([None, 0x41, 0x7F, 0xFF, 0x01])
+
+
+@functools.lru_cache(maxsize=8192)
+def struct_wrong_ctypes_array(scls: type, n: int):
+    """A ctypes array (of the right or a wrong length) whose element type is a look-alike of scls, or another struct."""
+    likes = lookalike_refs(scls) + [{"fam": "FS_TWIN"} if scls is not FAMILY["FS_TWIN"] else {"fam": "FS_SMALL"}]
+    return st.tuples(st.sampled_from(likes), _FILL).map(lambda t: {"CA": t[0], "n": n, "fill": t[1]})
 
 
 _SMALL3 = st.integers(0, 3)
